@@ -1,0 +1,14 @@
+//go:build verif
+
+// Contracts for package util (comment-only; see /verif/DESIGN.md).
+// This file contains no declarations: with and without the `verif` tag the compiled code is identical.
+package util
+
+// norm is the canonical spelling of a SKI: exactly the composition NormalizeSKI computes
+// (strings.ReplaceAll and strings.ToLower are uninterpreted deterministic functions).
+//@ pred norm(s string) string := uf_ToLower(uf_ReplaceAll(uf_ReplaceAll(s, " ", ""), "-", ""))
+// Assumed, not proved (probed by a bounded test in the thorough tier): normalising twice changes nothing.
+//@ axiom N1-idempotent: forall s: string :: norm(norm(s)) == norm(s)
+
+//@ func NormalizeSKI(ski) pure [C15]
+//@   ensures [C15] N0-def: result == norm(ski)
